@@ -2,12 +2,13 @@
   Props/C01.lean — C01: transfers conserve tokens, on one shard and across shards.
   Per-call exactness of ESDTTransfer on every execution side and of the destination side of ESDTNFTTransfer, and the
   supply invariant over ALL histories of fungible transfers, deliveries and refunds (world model: Proofs/Network.lean,
-  the node's message handling of DESIGN App. C made explicit) are proved; PARTIAL: the history-level statement for NFT /
-  multi transfers is decided by the conservation oracle (per storage key:
+  the node's message handling of DESIGN App. C made explicit) and of single NFT / SFT transfers (Proofs/NetworkNFT.lean) are
+  proved; PARTIAL: the history-level statement for multi transfers is decided by the conservation oracle (per storage key:
   Σ balances over all shards + Σ in-flight quantities is invariant under every transfer, delivery and refund) and by
   correspondence on the full diff + emitted payloads.
 -/
 import Proofs.Network
+import Proofs.NetworkNFT
 import Proofs.Ledger
 import Proofs.Hex
 namespace C01
@@ -117,7 +118,70 @@ example : supply nvW0 (esdtKeyPrefix ++ nvTok) = 5 ∧
     supply (nrun nvEnv [.user nvXfer, .deliver 0] nvW0) (esdtKeyPrefix ++ nvTok) = 5 ∧
     (nrun nvEnv [.user nvXfer, .deliver 0] nvW0).inflight = [] := by decide +kernel
 
--- PARTIAL: the same history-level statement for ESDTNFTTransfer and MultiESDTNFTTransfer (their per-call effects are
--- proved above / in C08; the world model of Proofs/Network.lean runs the fungible function only) — conservation oracle.
+/-- FULL (history level, single NFT / SFT transfers): the same invariant for ESDTNFTTransfer — under ANY sequence of
+    sender-side transactions (same-shard or cross-shard destination), deliveries of the emitted messages (the message is
+    read off the output transfer the function emits: parsed back with the call parser, payload decoded with the production
+    layout) in any order, failed deliveries turned into refund messages, and refunds on the origin shard, the per-key
+    supply  Σ_shards Σ_accounts quantity + Σ_in-flight payload quantity  is invariant.  Hypotheses on the INITIAL world only
+    (`NWorldInv`, preserved): per shard no duplicate addresses, the C15 invariant, stored values shorter than 2^63 bytes,
+    stored metadata with a non-zero nonce (what ESDTNFTCreate produces — an entry whose metadata said nonce 0 would be
+    re-saved under the key without the nonce suffix); transactions in the sender-side form, neither from nor to the
+    system account. -/
+theorem nft_conservation_history (e : Env) (steps : List NStep) (w : NFTWorld) (hI : NWorldInv e w)
+    (hok : ∀ s ∈ steps, NFTStepOK s) (k : Bytes) :
+    nsupply (nftRun e steps w) k = nsupply w k :=
+  (nftRun_supply e steps w hI hok k).1
+
+/-- non-vacuity: an SFT entry (nonce 1, quantity 3) at an account of shard 0; transfer 2 to an account of shard 1, deliver:
+    the supply under the entry's key stays 3; in between 2 of them are in flight -/
+def nvNFT : Bytes := [78, 70, 84]
+def nvEntry : Token :=
+  { type := 1, value := some 3, md := some { nonce := 1, name := [110], creator := nvAlice, hash := [104] } }
+def nvKey : Bytes := nftKey (esdtKeyPrefix ++ nvNFT) 1
+def nvNW0 : NFTWorld := { shards := [Accts.write [] nvAlice nvKey (encToken nvEntry), []], inflight := [] }
+def nvNXfer : Call := { fn := fnESDTNFTTransfer, caller := nvAlice, rcv := nvAlice, args := [nvNFT, [1], [2], nvBob] }
+example : nsupply nvNW0 nvKey = 3 ∧
+    nflightAt (nftRun nvEnv [.user nvNXfer] nvNW0).inflight nvKey = 2 ∧
+    nsupply (nftRun nvEnv [.user nvNXfer, .deliver 0] nvNW0) nvKey = 3 ∧
+    (nftRun nvEnv [.user nvNXfer, .deliver 0] nvNW0).inflight.length = 0 := by decide +kernel
+
+theorem nvEntry_dec : decToken (encToken nvEntry) = some nvEntry := by decide +kernel
+
+/-- … and that initial world meets the hypothesis `NWorldInv` -/
+example : NWorldInv nvEnv nvNW0 := by
+  have hread : ∀ a k, (Accts.write [] nvAlice nvKey (encToken nvEntry)).read a k =
+      if nvAlice = a ∧ nvKey = k then encToken nvEntry else [] := by
+    intro a k; rw [Accts.read_write]; rfl
+  refine ⟨?_, fun m hm => (by cases hm), trivial⟩
+  intro A hA
+  simp only [nvNW0, List.mem_cons, List.not_mem_nil, or_false] at hA
+  rcases hA with rfl | rfl
+  · refine ⟨by simp [Accts.Nodup, Accts.write, Accts.set], ?_, ?_, ?_⟩
+    · intro a k _ _
+      rw [hread]
+      split
+      · rename_i h
+        refine Or.inr ⟨nvEntry, nvEntry_dec, ⟨3, rfl, Or.inl (by decide)⟩, ?_⟩
+        intro m hm
+        cases hm
+        exact ⟨nvNFT, by rw [← h.2]; rfl⟩
+      · exact Or.inl rfl
+    · intro a k
+      rw [hread]
+      split
+      · decide +kernel
+      · decide
+    · intro a k t m hne hdec hm
+      rw [hread] at hne hdec
+      split at hne
+      · rename_i h
+        rw [if_pos h, nvEntry_dec] at hdec
+        cases hdec; cases hm; decide
+      · exact absurd rfl hne
+  · exact ⟨by simp [Accts.Nodup], fun _ _ _ _ => Or.inl rfl, fun _ _ => (by show ([] : Bytes).length < two63; decide),
+      fun _ _ _ _ h => absurd rfl h⟩
+
+-- PARTIAL: the history-level statement for MultiESDTNFTTransfer (its per-item effects are proved in C08 / Proofs/Metadata;
+-- the world models run the single-transfer functions) — conservation oracle.
 
 end C01
